@@ -111,7 +111,7 @@ impl GenParams {
             cum_opts: None,
             lb_span: 5,
             allow_pred_clause: true,
-            allow_overcap: false,
+            allow_overcap: true,
             dup_vars_permille: std::env::var("VERIF_DUP_PERMILLE").ok().and_then(|v| v.parse().ok()).unwrap_or(100),
             plant_permille: 750,
             allow_reified_incremental_cumulative: false,
